@@ -1,7 +1,7 @@
 (** C07 - every page is accounted for exactly once after every commit.
     [Layout.accounted] is the decision procedure the harness evaluates on the independent decoder's view of every
     file image; this file proves that a "yes" of that procedure is the declarative partition. *)
-From Bbolt Require Import Base Consts Spec Fnv Layout LayoutProofs.
+From Bbolt Require Import Base Consts Spec Fnv Layout LayoutProofs Pager PagerProofs.
 
 Theorem C07_accounting_decision_sound : forall v free,
   accounted v free = true ->
@@ -9,3 +9,22 @@ Theorem C07_accounting_decision_sound : forall v free,
   NoDup all /\ (forall id, In id all <-> 2 <= id < m_mark (v_meta v) \/ False).
 Proof. exact accounted_sound. Qed.
 Print Assumptions C07_accounting_decision_sound.
+
+(** Page-level model (Pager.v): in every reachable at-rest state every id in [2, mark) is exactly one of free,
+    pending, part of the newest version - for all histories of commits, rollbacks, readers and page reuse. *)
+Theorem C07_partition_at_rest : forall s, Inv s -> g_w s = None ->
+  forall x, 2 <= x < g_mark s ->
+    (In x (g_free s) /\ ~ In x (pend_pages s) /\ ~ In x (g_pages s)) \/
+    (~ In x (g_free s) /\ In x (pend_pages s) /\ ~ In x (g_pages s)) \/
+    (~ In x (g_free s) /\ ~ In x (pend_pages s) /\ In x (g_pages s)).
+Proof. exact partition_at_rest. Qed.
+Print Assumptions C07_partition_at_rest.
+
+Theorem C07_nothing_listed_beyond_mark : forall s, Inv s -> forall x,
+  In x (g_free s) \/ In x (pend_pages s) \/ In x (g_pages s) -> 2 <= x < g_mark s.
+Proof. exact listed_below_mark. Qed.
+Print Assumptions C07_nothing_listed_beyond_mark.
+
+Theorem C07_invariant_reachable : forall ls s s', Inv s -> prun s ls = Some s' -> Inv s'.
+Proof. exact inv_run. Qed.
+Print Assumptions C07_invariant_reachable.
